@@ -248,8 +248,14 @@ class Equation:
         products = []
         for i, term in enumerate(
                 self.program.get_equation().get_term_tensors()):
-            factors = [var for var in self.program.get_equation().get_term_vars()[i] if self.__in_update(
-                var)] + [tensor.lower() + "_val" for tensor in term if self.__in_update(tensor)]
+            # A variable may appear in more than one term, so its use is
+            # recorded per term
+            equation = self.program.get_equation()
+            factors = [
+                var for var, used in zip(
+                    equation.get_term_vars()[i],
+                    equation.get_vars_in_update()[i]) if used] + [
+                tensor.lower() + "_val" for tensor in term if self.__in_update(tensor)]
 
             product: Expression = EVar(factors[0])
             for factor in factors[1:]:
